@@ -104,7 +104,7 @@ def run(tier, build, replay=None):
     out = core.Outcome("C05", tier)
     proofs = core.check_proofs(build, "C05.v")
     rng = core.Rng(core.seed(), 5)
-    n = 3000 if tier == "quick" else 120000
+    n = 10000 if tier == "quick" else 120000
     cases = [replay] if replay else gen_cases(rng, n)
     impl_res = core.pool_map(impl_one, cases, init=core.impl_env_setup)
     lines = []
